@@ -60,3 +60,23 @@ package commands
 //@ func LoggedError
 //@   assumed
 //@   noeffect
+
+// C01 / C08 / C09: the clean command.  A clean-pointer result is written back
+// verbatim; otherwise the only store mutation is the rename of a temp file
+// whose content hashes to the id that names the destination, and the temp
+// file lives outside the object store.
+//@ func clean
+//@   props C01 C08 C09
+//@   requires @inv gf != nil && gf.cfg != nil && from != nil && to != nil && reads_ok(from) && ext_count(gf.cfg) == 0
+//@   at call (io.Writer).Write:1 assert bytesOf(arg1__) == old(rrest(from)) && len(old(rrest(from))) < 1024
+//@   at call os.Rename:1 assert hexsha(fdata(arg0__)) == cleaned.Oid && !isobj(arg0__) && (arg1__ == objpath(cleaned.Oid) || arg1__ == devnull)
+//@   at call os.Rename:1 assert fdata(arg0__) == old(rrest(from)) && cleaned.Size == len(old(rrest(from)))
+
+//@ func (*github.com/git-lfs/git-lfs/v3/lfs.GitFilter).CopyCallbackFile
+//@   assumed
+//@   props C01 C08
+//@   modifies fresh
+//@ func (*github.com/git-lfs/git-lfs/v3/lfs.cleanedAsset).Teardown
+//@   assumed
+//@   props C01 C08
+//@   modifies ghost fexists[a.Filename]
